@@ -39,17 +39,56 @@ def bucketOf (name : String) : Bucket :=
   | some "po" => .proofOutline
   | _ => .other
 
+def FTree.isLink : FTree → Bool
+  | .link _ => true
+  | _ => false
+
 def insertTree (t : FTree) : List FTree → List FTree
   | [] => [t]
   | u :: us => if u.name < t.name then u :: insertTree t us else t :: u :: us
 
 def sortTrees (l : List FTree) : List FTree := l.foldr insertTree []
 
-/-- files reached from one argument, in walk order, as paths (`prefix/name`) -/
-partial def walkPaths (pre : String) : FTree → List String
+theorem mem_insertTree {t u : FTree} : ∀ {l : List FTree}, u ∈ insertTree t l → u = t ∨ u ∈ l := by
+  intro l
+  induction l with
+  | nil => intro h; simp [insertTree] at h; exact Or.inl h
+  | cons v vs ih =>
+    intro h
+    simp only [insertTree] at h
+    split at h
+    · rcases List.mem_cons.mp h with h | h
+      · exact Or.inr (List.mem_cons.mpr (Or.inl h))
+      · rcases ih h with h | h
+        · exact Or.inl h
+        · exact Or.inr (List.mem_cons.mpr (Or.inr h))
+    · rcases List.mem_cons.mp h with h | h
+      · exact Or.inl h
+      · exact Or.inr h
+
+theorem mem_sortTrees {u : FTree} : ∀ {l : List FTree}, u ∈ sortTrees l → u ∈ l := by
+  intro l
+  induction l with
+  | nil => intro h; simp [sortTrees] at h
+  | cons v vs ih =>
+    intro h
+    have h' : u ∈ insertTree v (sortTrees vs) := by simpa [sortTrees] using h
+    rcases mem_insertTree h' with h | h
+    · exact List.mem_cons.mpr (Or.inl h)
+    · exact List.mem_cons.mpr (Or.inr (ih h))
+
+/-- files reached from one argument, in walk order, as paths (`prefix/name`): a regular file is itself, a directory
+    its children in name order, depth first, a symbolic link nothing -/
+def walkPaths (pre : String) : FTree → List String
   | .file n => [pre ++ n]
-  | .dir n cs => (sortTrees cs).flatMap (walkPaths (pre ++ n ++ "/"))
+  | .dir n cs => (sortTrees cs).attach.flatMap fun c => walkPaths (pre ++ n ++ "/") c.1
   | .link _ => []
+termination_by t => sizeOf t
+decreasing_by
+  have hm := mem_sortTrees c.2
+  have := List.sizeOf_lt_of_mem hm
+  simp only [FTree.dir.sizeOf_spec]
+  omega
 
 structure Files where
   programs : List String := []
